@@ -83,7 +83,7 @@ Definition dec_lock_entry (s : sexp) : option (nv * N) :=
 Definition dec_seed (s : sexp) : option (N * nv) :=
   match s with L [A r; A p; A v] => Some (r, (p, v)) | _ => None end.
 
-Definition dec_jworld_seeded (s seeds : sexp) : option jworld :=
+Definition dec_jworld_seeded (s seeds late : sexp) : option jworld :=
   match s with
   | L (cls :: use :: only :: pkgs :: vers :: mt :: lp :: lr :: http :: A mc :: A mr :: _) =>
       do c <- as_list_of dec_cls cls;
@@ -96,17 +96,19 @@ Definition dec_jworld_seeded (s seeds : sexp) : option jworld :=
       do r <- as_list_of (as_pair as_atom as_atom) lr;
       do h <- as_atoms http;
       do sd <- as_list_of dec_seed seeds;
+      do lt <- as_list_of (as_pair as_atom as_atom) late;
       Some {| jw_cls := c; jw_use := u; jw_only := o; jw_pkgs := p; jw_vers := v; jw_match := m;
               jw_lock_pkg := l; jw_lock_remote := r; jw_http := h; jw_missing_chk := mc;
-              jw_max_redirects := N.to_nat mr; jw_seed := sd |}
+              jw_max_redirects := N.to_nat mr; jw_seed := sd; jw_late := lt |}
   | _ => None
   end.
 
 (* worlds written before lockfile seeding was modelled have eleven fields: no seeds *)
 Definition dec_jworld (s : sexp) : option jworld :=
   match s with
-  | L [_; _; _; _; _; _; _; _; _; _; _] => dec_jworld_seeded s (L [])
-  | L [_; _; _; _; _; _; _; _; _; _; _; seeds] => dec_jworld_seeded s seeds
+  | L [_; _; _; _; _; _; _; _; _; _; _] => dec_jworld_seeded s (L []) (L [])
+  | L [_; _; _; _; _; _; _; _; _; _; _; seeds] => dec_jworld_seeded s seeds (L [])
+  | L [_; _; _; _; _; _; _; _; _; _; _; seeds; late] => dec_jworld_seeded s seeds late
   | _ => None
   end.
 
